@@ -232,6 +232,7 @@ def main():
   k = 0
   while k < n_models:
     deep = rng.random() < 0.3
+    w4 = False
     # every 6th model: fixed-output-range ops (SOFTMAX / LOGISTIC / TANH) feeding
     # further quantized ops, under 8-bit SYMMETRIC activations
     fixed = (k % 6 == 4)
@@ -250,10 +251,11 @@ def main():
       desc = rng.choice(['default_a8w8_recipe', 'default_a16w8_recipe'])
       qt.load_quantization_recipe(copy.deepcopy(ship[desc]))
     else:
-      c = rng.choice(['a8w8', 'a8sw8', 'a16w8'])
+      c = rng.choice(['a8w8', 'a8sw8', 'a16w8', 'a8w4', 'a16w4'])
       desc = gr.apply_rules(qt, [('.*', '*', ncfg[c][0], c)])
       if not desc:
         continue
+      w4 = c.endswith('w4')
     k += 1
     dist['cases'] += 1
     inp = {'recipe': desc, 'model_hex': mb.hex() if len(mb) < 30000 else None}
@@ -267,7 +269,10 @@ def main():
     except Exception as e:  # pylint: disable=broad-except
       dist['raises:' + cg.classify_raise(e, m_in)] += 1
       continue
-    viol += check_case(qt, mb, qb, feed, inp, dist, ratios, nontrivial)
+    # 4-bit weights: the rounding noise of the weights alone is of the order of the
+    # activations (same tolerance as C13's runtime step for the w4 pairs)
+    viol += check_case(qt, mb, qb, feed, inp, dist, ratios, nontrivial, fraction=0.6 if w4 else None)
+    dist['w4_cases'] += int(w4)
     if len(samples) < 3:
       samples.append({'recipe': desc, 'ops': info['ops'], 'signatures': list(feed)})
   rs = sorted(ratios)
